@@ -63,6 +63,8 @@ type c13Scenario struct {
 	R0        int    `json:"r0,omitempty"`                // initial refresh register (0 = base vector's, else value+1)
 	SepCtx    bool   `json:"separate_contexts,omitempty"` // Run #1 gets the cancellable context, later Runs a fresh one nobody cancels
 	PanicAt   int    `json:"panic_at_read,omitempty"`     // the memory callback panics at this caller read (Run is left by unwinding)
+	Cause     bool   `json:"cancel_cause,omitempty"`      // the parent is a WithCancelCause context cancelled with a custom cause: Run still returns ctx.Err()
+	Pending   bool   `json:"refused_request,omitempty"`   // a maskable request stays pending for the whole Run (IFF1 clear, the program never executes EI)
 	Sched     []int  `json:"schedule,omitempty"`
 }
 
@@ -122,6 +124,8 @@ type c13Outcome struct {
 
 type c13DevicePanic struct{}
 
+var errC13Cause = fmt.Errorf("the embedder's own cause for cancelling")
+
 func (o *c13Outcome) sig() string {
 	return fmt.Sprintf("returned=%v err=%v PC=%04X HALT=%v reads=%d", o.returned, o.err, o.final.PC, o.halt, o.reads)
 }
@@ -155,7 +159,13 @@ func c13Body(bg *[65536]uint8, sc *c13Scenario, world **c13World) func(s *sched.
 			st.R = uint8(sc.R0 - 1)
 			st.A = st.R
 		}
+		if sc.Pending {
+			st.IFF1, st.IFF2, st.IM = false, false, 1
+		}
 		toCPU(&st, cpu)
+		if sc.Pending {
+			cpu.Interrupt = z80.IM1Interrupt()
+		}
 		switch sc.BP {
 		case 1:
 			cpu.BreakPoints = map[uint16]struct{}{0x4000: {}}
@@ -167,6 +177,9 @@ func c13Body(bg *[65536]uint8, sc *c13Scenario, world **c13World) func(s *sched.
 		if sc.Deadline {
 			d := &deadlineCtx{done: make(chan struct{})}
 			ctx, cancel = d, d.expire
+		} else if sc.Cause {
+			c, cf := context.WithCancelCause(context.Background())
+			ctx, cancel = c, func() { cf(errC13Cause) }
 		} else {
 			c, cf := context.WithCancel(context.Background())
 			ctx, cancel = c, cf
@@ -339,7 +352,13 @@ func c13Judge(bg *[65536]uint8, sc *c13Scenario, x *sched.Scheduler, w *c13World
 		st.R = uint8(sc.R0 - 1)
 		st.A = st.R
 	}
+	if sc.Pending {
+		st.IFF1, st.IFF2, st.IM = false, false, 1
+	}
 	toCPU(&st, twin)
+	if sc.Pending {
+		twin.Interrupt = z80.IM1Interrupt()
+	}
 	twin.HALT = false
 	steps := 0
 	for len(tm.Reads) < out.reads && steps < 100000 {
@@ -417,6 +436,14 @@ func checkC13(c *Ctx) {
 						for _, r0 := range []int{0x00, 0x01, 0x7E, 0xFF} {
 							scenarios = append(scenarios, c13Scenario{Prog: pi, Name: progs[pi].name, BP: bp, Canceller: can, R0: r0 + 1})
 						}
+					}
+					if !dl && can != 0 && bp == 0 {
+						// cancelled with a custom cause: the error Run returns is still the context's Err()
+						scenarios = append(scenarios, c13Scenario{Prog: pi, Name: progs[pi].name + " (WithCancelCause)", BP: bp, Canceller: can, Cause: true})
+					}
+					if !dl && can != 0 && bp == 0 && progs[pi].code != nil {
+						// a maskable request that is never accepted stays pending for the whole Run
+						scenarios = append(scenarios, c13Scenario{Prog: pi, Name: progs[pi].name + " (refused request pending)", BP: bp, Canceller: can, Pending: true})
 					}
 					if bp == 0 && !dl && can != 1 && progs[pi].code != nil {
 						// a device callback panics while Run is executing (recovered by the caller): no goroutine may stay behind
@@ -528,7 +555,7 @@ func checkC13(c *Ctx) {
 	c.Set("preemption_bound", bound)
 	c.Set("bound_pruned_alternatives", boundHit)
 	c.Set("threads_spawned_by_run_total", spawnedTotal)
-	c.Rule = fmt.Sprintf("the real Run, rewritten at check time by an AST pass so that its go statement, channel receive, atomic operations, cancel() and captured-variable accesses go through a cooperative scheduler (%d files rewritten, %d go statements, %d receives, %d shared accesses instrumented); %d scenarios = programs {JR -2; LDIR BC=0 loop; IN A,(n) loop; NOP;NOP;HALT; DJNZ loop;HALT; JP (IX) loop; IN A,(C);JP (IX) loop; LD R,A loop} (non-terminating ones also from refresh-register values 00,01,7E,FF) x BreakPoints {nil, non-nil never reached, reached} x canceller {absent, before the call, concurrent} x parent context {std WithCancel -> Canceled, harness context with AfterFunc -> DeadlineExceeded}; threads: caller, the goroutine(s) Run spawns, canceller; scheduling points at every atomic operation, go, receive, cancel() and inside every memory/port callback; ALL schedules with <=%d preemptions (thorough: unbounded for the terminating programs), fair yields at the polling load, horizon 20000 points. Per schedule: error in the allowed set (context error iff cancelled before return and equal to the context's error; nil => HALT executed; ErrBreakPoint => PC in BreakPoints), Run returns whenever cancelled or the program stops, final state = Step-driven twin after a whole number of Steps with the same number of reads, every spawned thread finished (leak), no deadlock, no happens-before race on the captured variables (vector clocks: fork, release/acquire on atomics, cancel->receive). First and every violating schedule are executed twice and must reproduce. Non-trivial: every schedule (counted); distinct outcomes reported.", len(rep.Files), rep.GoStmts, rep.Receives, rep.Wrapped, len(scenarios), bound)
+	c.Rule = fmt.Sprintf("the real Run, rewritten at check time by an AST pass so that its go statement, channel receive, atomic operations, cancel() and captured-variable accesses go through a cooperative scheduler (%d files rewritten, %d go statements, %d receives, %d shared accesses instrumented); %d scenarios = programs {JR -2; LDIR BC=0 loop; IN A,(n) loop; NOP;NOP;HALT; DJNZ loop;HALT; JP (IX) loop; IN A,(C);JP (IX) loop; LD R,A loop} (non-terminating ones also from refresh-register values 00,01,7E,FF) x BreakPoints {nil, non-nil never reached, reached} x canceller {absent, before the call, concurrent} x parent context {std WithCancel -> Canceled, WithCancelCause with a custom cause -> still Canceled, harness context with AfterFunc -> DeadlineExceeded}; also with a refused maskable request pending throughout, a device panic at the 3rd read, repeated Runs with shared or separate contexts; threads: caller, the goroutine(s) Run spawns, canceller; scheduling points at every atomic operation, go, receive, cancel() and inside every memory/port callback; ALL schedules with <=%d preemptions (thorough: unbounded for the terminating programs), fair yields at the polling load, horizon 20000 points. Per schedule: error in the allowed set (context error iff cancelled before return and equal to the context's error; nil => HALT executed; ErrBreakPoint => PC in BreakPoints), Run returns whenever cancelled or the program stops, final state = Step-driven twin after a whole number of Steps with the same number of reads, every spawned thread finished (leak), no deadlock, no happens-before race on the captured variables (vector clocks: fork, release/acquire on atomics, cancel->receive). First and every violating schedule are executed twice and must reproduce. Non-trivial: every schedule (counted); distinct outcomes reported.", len(rep.Files), rep.GoStmts, rep.Receives, rep.Wrapped, len(scenarios), bound)
 	c.Bound = fmt.Sprintf("preemption bound %d, horizon 20000", bound)
 	c.Assume("sequentially consistent interleavings at the instrumented operations; weak-memory effects are outside the model")
 	c.Assume("'bounded delay' is decided in scheduling points (horizon) under fair scheduling, not in seconds")
